@@ -1,6 +1,9 @@
 // Library-facing helpers shared by the drivers: packet recipes -> library packets, getter snapshots.
 #pragma once
 
+#include <memory>
+#include <string_view>
+
 #include <asam_cmp/analog_payload.h>
 #include <asam_cmp/can_fd_payload.h>
 #include <asam_cmp/can_payload.h>
@@ -253,6 +256,25 @@ inline std::string fillString(uint32_t seed, size_t n)
     return s;
 }
 
+// Four string views for CaptureModulePayload::setData that are NOT followed by a NUL: each string lives in a heap block of
+// exactly its size (what follows is the allocator's business - red zone under ASan, poison in the C20 allocator, unaddressable
+// under memcheck).  A std::string_view promises nothing about the byte behind it.
+struct UnterminatedViews
+{
+    std::unique_ptr<char[]> block[4];
+    std::string_view view[4];
+    explicit UnterminatedViews(const std::string (&str)[4])
+    {
+        for (int i = 0; i < 4; ++i)
+        {
+            block[i].reset(new char[str[i].size() ? str[i].size() : 1]);
+            if (!str[i].empty())
+                memcpy(block[i].get(), str[i].data(), str[i].size());
+            view[i] = std::string_view(block[i].get(), str[i].size());
+        }
+    }
+};
+
 inline RecipeFields deriveFields(const PacketRecipe& r)
 {
     RecipeFields f;
@@ -463,7 +485,13 @@ inline lib::Payload apiPayload(const PacketRecipe& r, const RecipeFields& f)
             p.setTimeSource(f.cm.timeSource);
             p.setDomainNumber(f.cm.domainNumber);
             p.setGptpFlags(f.cm.gptpFlags);
-            p.setData(f.str[0], f.str[1], f.str[2], f.str[3], f.vendor);
+            if (r.seed & 1)
+            {
+                UnterminatedViews uv(f.str);
+                p.setData(uv.view[0], uv.view[1], uv.view[2], uv.view[3], f.vendor);
+            }
+            else
+                p.setData(f.str[0], f.str[1], f.str[2], f.str[3], f.vendor);
             return p;
         }
         case rkIfStatus:
